@@ -58,16 +58,17 @@ func vHnswVals(dim, which int) [][]float32 {
 }
 
 type vHnswSys struct {
-	c    *vCtx
-	cfg  vHnswCfg
-	cfgS string
-	vals [][]float32
-	idx  *HNSWIndex
-	m    *vVecModel
-	nAdd int
-	nRem int
-	nFl  int
-	nLvl int
+	c      *vCtx
+	cfg    vHnswCfg
+	cfgS   string
+	vals   [][]float32
+	idx    *HNSWIndex
+	m      *vVecModel
+	nAdd   int
+	nRem   int
+	nFl    int
+	nLvl   int
+	nReadd int
 	// resident = vectors held by the graph (incl. soft-deleted); maxRes = its maximum
 	// since the index was last empty or flushed
 	resident       int
@@ -83,7 +84,7 @@ func (s *vHnswSys) Reset() {
 	}
 	s.idx = idx
 	s.m = newVecModel()
-	s.nAdd, s.nRem, s.nFl, s.nLvl, s.resident, s.maxRes, s.maxEver = 0, 0, 0, 0, 0, 0, 0
+	s.nAdd, s.nRem, s.nFl, s.nLvl, s.resident, s.maxRes, s.maxEver, s.nReadd = 0, 0, 0, 0, 0, 0, 0, 0
 	documentFilterPool.Reset()
 	minHeapPool.Reset()
 	maxHeapPool.Reset()
@@ -122,6 +123,21 @@ func (s *vHnswSys) Enabled() []vOp {
 					break
 				}
 				ops = append(ops, vOp{K: "Add", A: id, B: vi, C: lvl})
+			}
+		}
+	}
+	if s.nReadd < 1 && s.nRem > 0 && s.cfg.MaxN <= 2*s.cfg.M {
+		// update = remove + add: re-add an id that is currently removed (soft-deleted or flushed away)
+		rids := make([]int, 0)
+		for id := range s.m.ever {
+			if _, live := s.m.live[id]; !live {
+				rids = append(rids, int(id))
+			}
+		}
+		sort.Ints(rids)
+		for _, id := range rids {
+			for vi := 0; vi < 2 && vi < len(s.vals); vi++ {
+				ops = append(ops, vOp{K: "ReAdd", A: id, B: vi})
 			}
 		}
 	}
@@ -170,6 +186,34 @@ func (s *vHnswSys) Apply(op vOp, hist []vOp, check bool) {
 		s.resident++
 		if s.resident > s.maxRes {
 			s.maxRes = s.resident
+		}
+		if s.resident > s.maxEver {
+			s.maxEver = s.resident
+		}
+	case "ReAdd":
+		raw := s.vals[op.B]
+		s.nReadd++
+		wasResident := s.idx.deletedNodes.Contains(uint32(op.A))
+		var err error
+		vWithLevel(0, func() { err = s.idx.Add(*NewVectorNodeWithID(uint32(op.A), vCopyVec(raw))) })
+		if err != nil {
+			if check {
+				s.c.Violation("add-failed", "readd", s.cfgS, h(), err.Error())
+			}
+			break
+		}
+		s.m.live[uint32(op.A)] = vCopyVec(raw)
+		delete(s.m.removed, uint32(op.A))
+		if wasResident {
+			// the index compacts before re-adding a soft-deleted id: the graph now holds the live vectors only
+			s.resident = len(s.m.live)
+			s.maxRes = s.resident
+			s.m.removed = map[uint32]bool{}
+		} else {
+			s.resident++
+			if s.resident > s.maxRes {
+				s.maxRes = s.resident
+			}
 		}
 		if s.resident > s.maxEver {
 			s.maxEver = s.resident
@@ -336,6 +380,21 @@ func (s *vHnswSys) observe(h []string) {
 				}
 				s.c.Violation("empty-result-with-live-vectors", cause, s.cfgS, h, fmt.Sprintf("q=%v k=%d returned nothing although %d live vectors exist", q, k, len(s.m.live)))
 			}
+			// non-emptiness does not depend on the beam width: also with efSearch 1 and 2
+			for _, ef := range []int{1, 2} {
+				if k != 1 {
+					break
+				}
+				s.c.Evaluations++
+				r2, err := vRunVecQuery(s.idx, vVecQuery{Q: q, K: k, Ef: ef})
+				if err != nil {
+					s.c.Violation("search-error", "", s.cfgS, h, err.Error())
+				} else if len(s.m.live) > 0 && len(r2) == 0 {
+					s.c.Violation("empty-result-with-live-vectors", fmt.Sprintf("efSearch=%d", ef), s.cfgS, h, fmt.Sprintf("q=%v k=%d efSearch=%d returned nothing although %d live vectors exist", q, k, ef, len(s.m.live)))
+				} else if msg := vAcceptSound(r2, vLiveCands(s.cfg.Metric, s.m.live, q), k, true); msg != "" {
+					s.c.Violation("unsound-result", vCauseVec(s.m, r2), s.cfgS, h, fmt.Sprintf("q=%v k=%d efSearch=%d: %s; got [%s]", q, k, ef, msg, vResStr(r2)))
+				}
+			}
 			cands, _ := vEligible(s.cfg.Metric, s.m.live, vVecQuery{Q: q, K: k}, false, func(id uint32, v []float32) float64 { return vRefDist(s.cfg.Metric, q, v) })
 			if small {
 				if msg := vAcceptExact(res, cands, k); msg != "" {
@@ -356,8 +415,13 @@ func (s *vHnswSys) observe(h []string) {
 	}
 }
 
+func vLiveCands(metric DistanceKind, live map[uint32][]float32, q []float32) []vCand {
+	c, _ := vEligible(metric, live, vVecQuery{Q: q, K: -1}, false, func(id uint32, v []float32) float64 { return vRefDist(metric, q, v) })
+	return c
+}
+
 func (s *vHnswSys) Key() string {
-	return vCanonVec(s.idx) + "#" + s.m.key() + fmt.Sprintf("#%d/%d/%d/%d/%d/%d/%d", s.nAdd, s.nRem, s.nFl, s.nLvl, s.resident, s.maxRes, s.maxEver)
+	return vCanonVec(s.idx) + "#" + s.m.key() + fmt.Sprintf("#%d/%d/%d/%d/%d/%d/%d/%d", s.nAdd, s.nRem, s.nFl, s.nLvl, s.resident, s.maxRes, s.maxEver, s.nReadd)
 }
 
 func vC12Configs(tier string) []vHnswCfg {
@@ -368,10 +432,13 @@ func vC12Configs(tier string) []vHnswCfg {
 			if metric == Cosine && d == 1 {
 				continue // one-dimensional cosine has two points only
 			}
-			if metric == L2Squared && d == 1 && !th {
+			if metric == L2Squared && !th {
 				continue
 			}
 			for _, m := range []int{2, 3} {
+				if m == 3 && !th && !(metric == Euclidean && d == 2) {
+					continue
+				}
 				// exactness regime: at most 2M adds, ef in {2M, 4M}
 				efs := []int{2 * m}
 				if th {
@@ -381,9 +448,11 @@ func vC12Configs(tier string) []vHnswCfg {
 					c := vHnswCfg{Metric: metric, Dim: d, M: m, Ef: ef, MaxN: 2 * m, MaxRem: 1, MaxFl: 1, MaxLvl: 1, Vals: 0}
 					if m == 3 {
 						c.Vals = 1
-						c.MaxN = 5
+						c.MaxN = 4
+						c.MaxLvl = 0
 						if th {
 							c.MaxN = 6
+							c.MaxLvl = 1
 						}
 					}
 					if th {
@@ -397,10 +466,11 @@ func vC12Configs(tier string) []vHnswCfg {
 				}
 				// reachability / non-emptiness regime: beyond 2M+1 nodes, reduced alphabet
 				if m == 2 {
-					c := vHnswCfg{Metric: metric, Dim: d, M: m, Ef: 4 * m, MaxN: 2*m + 2, MaxRem: 1, MaxFl: 1, MaxLvl: 1, Vals: 2}
+					c := vHnswCfg{Metric: metric, Dim: d, M: m, Ef: 4 * m, MaxN: 2*m + 2, MaxRem: 1, MaxFl: 1, MaxLvl: 0, Vals: 2}
 					if th {
 						c.MaxN = 2*m + 3
 						c.MaxRem = 2
+						c.MaxLvl = 1
 					}
 					out = append(out, c)
 					c2 := c
